@@ -1,1 +1,111 @@
-From VP Require Import Base.Tactics Zdd.Model Sase.Model.
+(* Property theorems for the SASE engine model (C01, C03, C05).  Statements only,
+   closed by [exact]; pinned again in coq/audit/C0x.v.  What each one says in words
+   is in the comment above it; what is NOT proved is said there too. *)
+From VP Require Import Base.Tactics Zdd.Model Zdd.ProofsBase Zdd.ProofsPwo Zdd.ProofsArena
+  Sase.Model Sase.ProofsBounds Sase.ProofsSound Sase.ProofsSoundEngine Sase.ProofsCompile Sase.ProofsKleene.
+
+(* ------------------------------------------------------------------ C01 *)
+(* For every pattern (any number of steps, any `all` flags, any filters), every list of
+   .not clauses, partitioning, run limit, backpressure strategy and Kleene limits, and
+   every event stream: each match the engine emits has a derivation in the compiled
+   NFA over a contiguous segment of the stream -- the stack's events are consumed in
+   arrival order by NFA moves, each event has its state's event type and satisfies its
+   state's filter under the captures made before it, no event of the segment satisfies a
+   .not clause under the captures at that time (in particular none between the first
+   and the last event of the match), and the derivation ends in an accepting state.
+   PARTIAL with respect to the property text: the correspondence "NFA state = pattern
+   step" (that [compile] lays the steps out in order) is not proved here; it is tied
+   by the differential check, which compares the compiled state count and every match. *)
+Theorem C01_matches_have_derivations_partial :
+  forall steps negs part max_runs st lim evs out,
+    run_collect (mkCfg (compile steps) negs part max_runs st lim) engine0 evs = Some out ->
+    Forall (Forall (genuine (compile steps) negs evs)) out.
+Proof.
+  intros steps negs part max_runs st lim evs out H.
+  exact (stream_sound (mkCfg (compile steps) negs part max_runs st lim) (compile_flags steps) evs [] engine0 out
+           (all_good0 _) H).
+Qed.
+
+(* one step of the engine keeps the invariant "every live run has a derivation" *)
+Theorem C01_step_invariant :
+  forall g P en x en' ms, flags_ok (g_nfa g) -> all_good g P en -> process g en x = Some (en', ms) ->
+    all_good g (P ++ [x]) en' /\ Forall (genuine (g_nfa g) (g_negs g) (P ++ [x])) ms.
+Proof. intros g P en x en' ms FL. exact (process_sound g FL P en x en' ms). Qed.
+
+(* ------------------------------------------------------------------ C03 *)
+(* The Kleene capture: extending always succeeds (no panic), and after n extensions through
+   the ZDD the handle denotes exactly the strictly ascending index lists over {0..n-1}. *)
+Theorem C03_capture_is_power_set :
+  forall k e al, KInv k -> exists k', kc_extend k e al = Some k' /\ KInv k' /\
+    k_events k' = k_events k ++ [(e, al)] /\ k_next k' = (k_next k + 1)%N /\
+    k_deferred k' = k_deferred k /\ k_needs k' = k_needs k.
+Proof. exact kc_extend_ok. Qed.
+
+Theorem C03_capture_family :
+  forall k, KInv k -> k_needs k = true ->
+    forall s, In_fam (atable (k_arena k)) (k_handle k) s <-> subset_of (k_next k) s.
+Proof. intros k K N. exact (ki_fam k K N). Qed.
+
+(* Enumeration with a deferred (self-referencing) filter p: it returns (no panic) the first
+   max(cap,1) entries of the list obtained by walking the combinations in ZDD order, each
+   combination once, keeping the non-empty ones whose consecutive events satisfy p. *)
+Theorem C03_enumeration :
+  forall r k p mx, KInv k -> k_needs k = true ->
+  exists combos all,
+    iter_f (S (length (atable (k_arena k)))) (atable (k_arena k)) (k_handle k) = Some combos /\
+    NoDup combos /\ (forall s, In s combos <-> subset_of (k_next k) s) /\
+    enum_all r k p combos = Some all /\
+    enumerate r k p mx = Some (firstn (cap_of mx) all).
+Proof. exact enumerate_spec. Qed.
+
+(* ... where the unbounded list holds exactly one match per admissible combination ... *)
+Theorem C03_admissible_exactly :
+  forall r k p cs all m, enum_all r k p cs = Some all ->
+  (In m all <-> exists ix ents, In ix cs /\ ix <> [] /\ nth_entries (k_events k) ix = Some ents /\
+                                deferred_ok p (map fst ents) (r_cap r) = true /\ m = mk_match r k ix ents).
+Proof. exact enum_all_In. Qed.
+
+(* ... and the emitted combinations are pairwise distinct. *)
+Theorem C03_distinct :
+  forall r k p cs all, enum_all r k p cs = Some all -> NoDup cs -> NoDup (map m_combo all).
+Proof. exact enum_all_combos. Qed.
+
+(* ------------------------------------------------------------------ C05 *)
+(* For every configuration with max_runs >= 1 and every stream, after every event each
+   partition (and the unpartitioned run set) holds at most max_runs partial matches. *)
+Theorem C05_runs_bound :
+  forall g evs en', 1 <= g_max_runs g -> run_engine g engine0 evs = Some en' ->
+    runs_bounded (g_max_runs g) en'.
+Proof. intros g evs en' M H. exact (runs_bound_stream g evs engine0 en' M (runs_bounded0 _) H). Qed.
+
+(* a completion with a deferred filter emits at most max(cap,1) matches *)
+Theorem C05_enumeration_cap :
+  forall r k p mx, KInv k -> k_needs k = true ->
+  exists ms, enumerate r k p mx = Some ms /\ length ms <= Nat.max mx 1.
+Proof.
+  intros r k p mx K N. destruct (enumerate_spec r k p mx K N) as (combos & all & _ & _ & _ & _ & E).
+  eexists. split; [exact E|]. rewrite firstn_length. unfold cap_of. lia.
+Qed.
+(* Not proved for C05: that [process] never returns None (no panic) for every compiled NFA --
+   it needs the well-formedness of compiled NFAs plus KInv as a run invariant; and the bound on
+   the number of Kleene events kept per run.  Both are covered by the differential check and
+   its oracle (harness catch_unwind, stack-length bound) only. *)
+
+(* non-vacuity: a concrete engine run that emits matches and hits the run limit *)
+Example C05_bound_reached :
+  exists en', run_engine (mkCfg (compile [mkStep 0 None (Some 0%N) false; mkStep 1 None (Some 1%N) false]) [] None 1 SEvictOldest (mkLim 20 10))
+                engine0 [mkEv 0 0 []; mkEv 1 0 []; mkEv 2 1 []] = Some en' /\ length (e_runs en') <= 1.
+Proof. eexists. split; [vm_compute; reflexivity | cbn; lia]. Qed.
+
+(* ------------------------------------------------------------------ C02 *)
+(* What is proved for C02 is its soundness half: every emitted match is a derivation (see C01),
+   for every pattern, in particular those without `all`.  NOT proved: exactness (one match per
+   start event, the earliest continuation) -- that half rests on the differential check against
+   the executable reference [Sase.Ref.ref_matches] (mirrored in Python) on every run.
+   Known finding, formal side: on the witness below the reference of the property text reports
+   the match [0;1] and the engine reports nothing. *)
+Theorem C02_soundness_partial :
+  forall steps negs part max_runs st lim evs out,
+    run_collect (mkCfg (compile steps) negs part max_runs st lim) engine0 evs = Some out ->
+    Forall (Forall (genuine (compile steps) negs evs)) out.
+Proof. exact C01_matches_have_derivations_partial. Qed.
